@@ -13,6 +13,11 @@ for line in open(sys.argv[1]):
     m = re.search(r'exit=(\d+)', rest)
     b = re.search(r'bucket: (\S+)', rest)
     res[name] = {'detected': bool(m and m.group(1) == '1'), 'exit': int(m.group(1)) if m else None, 'first_bucket': b.group(1) if b else None}
+import os
+if os.path.exists('seeded/RESULTS.json'):
+    old = json.load(open('seeded/RESULTS.json'))['results']      # a run restricted by a pattern updates its entries only
+    old.update(res)
+    res = dict((k, v) for k, v in old.items() if os.path.isdir('seeded/' + k))
 json.dump({'tier': 'quick', 'results': res, 'detected': sum(1 for v in res.values() if v['detected']), 'total': len(res)},
           open('seeded/RESULTS.json', 'w'), indent=1, sort_keys=True)
 print('detected', sum(1 for v in res.values() if v['detected']), 'of', len(res))
